@@ -358,7 +358,7 @@ main(int argc, char **argv)
 	 * for all positions x..y b/t any two adjacent nongap RF positions (x-1 and y+1 are nongap RF positions) 
 	 * all missing data columns '~' must come before all gap positions ('.', '-', or '_')
 	 */
-      	if((status = update_maxgap_and_maxmis(msaA[ai], errbuf, clen, msaA[ai]->alen, maxgap, maxmis)) != eslOK) esl_fatal(errbuf);
+      	if((status = update_maxgap_and_maxmis(msaA[ai], errbuf, clen, msaA[ai]->alen, maxgap, maxmis)) != eslOK) esl_fatal("%s", errbuf);
       }
       if(esl_opt_GetBoolean(go, "-v")) { 
 	if((status = esl_FileTail(alifile_list[fi], FALSE, &tmpstr)) != eslOK) esl_fatal("Memory allocation error.");
